@@ -229,6 +229,10 @@ pub struct Kanata {
     unshifted_keys: Vec<KeyCode>,
     /// Keep track of last pressed key for [`CustomAction::Repeat`].
     last_pressed_key: KeyCode,
+    /// Keys that are held but were not pressed at the OS, because they were typed while a
+    /// sequence in a hidden input mode was active. The OS key repeat must not be forwarded for
+    /// them.
+    keys_hidden_by_sequence: Vec<KeyCode>,
     #[cfg(feature = "tcp_server")]
     /// Names of fake keys mapped to their index in the fake keys row
     pub virtual_keys: HashMap<String, usize>,
@@ -443,6 +447,7 @@ impl Kanata {
             unmodded_mods: UnmodMods::empty(),
             unshifted_keys: vec![],
             last_pressed_key: KeyCode::No,
+            keys_hidden_by_sequence: vec![],
             #[cfg(feature = "tcp_server")]
             virtual_keys: cfg.fake_keys,
             switch_max_key_timing: cfg.switch_max_key_timing,
@@ -581,6 +586,7 @@ impl Kanata {
             unmodded_mods: UnmodMods::empty(),
             unshifted_keys: vec![],
             last_pressed_key: KeyCode::No,
+            keys_hidden_by_sequence: vec![],
             #[cfg(feature = "tcp_server")]
             virtual_keys: cfg.fake_keys,
             switch_max_key_timing: cfg.switch_max_key_timing,
@@ -1162,6 +1168,7 @@ impl Kanata {
                 continue;
             }
             log::debug!("key release   {:?}", k);
+            self.keys_hidden_by_sequence.retain(|hidden| hidden != k);
             if let Err(e) = release_key(&mut self.kbd_out, k.into()) {
                 bail!("failed to release key: {:?}", e);
             }
@@ -1221,6 +1228,9 @@ impl Kanata {
             }
 
             if let Some(state) = self.sequence_state.get_active() {
+                if state.sequence_input_mode != SequenceInputMode::VisibleBackspaced {
+                    self.keys_hidden_by_sequence.push(*k);
+                }
                 do_sequence_press_logic(
                     state,
                     k,
